@@ -257,7 +257,7 @@ func vPeer(kind int) networkv1.NetworkPolicyPeer {
 	case 1:
 		return networkv1.NetworkPolicyPeer{NamespaceSelector: &metav1.LabelSelector{MatchLabels: map[string]string{"team": "b"}}}
 	case 2:
-		return networkv1.NetworkPolicyPeer{IPBlock: &networkv1.IPBlock{CIDR: "10.0.0.0/24", Except: []string{"10.0.0.128/25"}}}
+		return networkv1.NetworkPolicyPeer{IPBlock: &networkv1.IPBlock{CIDR: "10.0.0.9/24", Except: []string{"10.0.0.130/25"}}}
 	case 3:
 		return networkv1.NetworkPolicyPeer{PodSelector: &metav1.LabelSelector{}} // all pods
 	}
